@@ -500,6 +500,45 @@ fn gen_plain_path(rng: &mut Rng) -> String {
     s
 }
 
+/// file commands given RELATIVE names — also names that look like options (`-p`, `--x`, `-r`):
+/// the script runs in a child process whose working directory is a fresh private directory (the
+/// harness itself never changes its working directory and gives the in-process commands absolute
+/// paths only); the script checks its expectations with assert commands
+fn run_relative_script(script: &str) -> String {
+    static N: std::sync::atomic::AtomicUsize = std::sync::atomic::AtomicUsize::new(0);
+    let n = N.fetch_add(1, std::sync::atomic::Ordering::SeqCst);
+    let me = match std::env::current_exe() { Ok(p) => p, Err(_) => return "NO-CHILD-BINARY".to_string() };
+    let bin = match me.parent() { Some(d) => d.join("c07child"), None => return "NO-CHILD-BINARY".to_string() };
+    if !bin.exists() {
+        return "NO-CHILD-BINARY".to_string();
+    }
+    let base = std::env::temp_dir().join(format!("duck-c18rel-{}-{}", std::process::id(), n));
+    let work = base.join("work");
+    if std::fs::create_dir_all(&work).is_err() {
+        return "NO-TEMP-DIR".to_string();
+    }
+    let file = base.join("script.ds");
+    let _ = std::fs::write(&file, script);
+    let st = std::process::Command::new(bin)
+        .arg("cwdtext").arg(&file).arg("3000").arg(&work)
+        .stdin(std::process::Stdio::null()).stdout(std::process::Stdio::null()).stderr(std::process::Stdio::null())
+        .status();
+    let _ = std::fs::remove_dir_all(&base);
+    match st.ok().and_then(|s| s.code()) {
+        Some(0) => "ok".to_string(),
+        Some(6) => "script-reported-an-error".to_string(),
+        Some(3) => "PANIC".to_string(),
+        other => format!("child-ended-{:?}", other),
+    }
+}
+
+const RELATIVE_SCRIPTS: [&str; 4] = [
+    "mkdir -p other\na = is_dir -p\nassert ${a}\nb = is_path_exists other\nassert_false ${b}\nmkdir --x\nc = is_dir --x\nassert ${c}",
+    "touch -r file2\nd = is_file -r\nassert ${d}\ne = is_path_exists file2\nassert_false ${e}",
+    "writefile -n data\ne = readfile -n\nassert_eq ${e} data\nappendfile -n more\ne = readfile -n\nassert_eq ${e} datamore\ncp -n -copy\ne = readfile -copy\nassert_eq ${e} datamore",
+    "mkdir sub/dir\nwritefile sub/dir/f.txt x\nmv sub/dir/f.txt sub\na = is_file sub/f.txt\nassert ${a}\nrm sub/f.txt\nb = is_path_exists sub/f.txt\nassert_false ${b}",
+];
+
 impl Prop for C18Prop {
     fn id(&self) -> &'static str {
         "C18"
@@ -540,6 +579,9 @@ impl Prop for C18Prop {
             ],
             vec!["fixed"],
         ));
+        for sc in RELATIVE_SCRIPTS {
+            out.push(Case { req: format!("fsrel {}", enc_str(sc)), in_domain: true, nontrivial: true, tags: vec!["fixed", "relative-names"] });
+        }
         // sizes around the usual buffer sizes (binary and text), read back in full
         for n in [4096usize, 65536, 65537, 70000, 200001] {
             let bytes: Vec<u8> = (0..n).map(|i| (i * 7 + i / 251) as u8).collect();
@@ -659,6 +701,7 @@ impl Prop for C18Prop {
         let t: Vec<&str> = req.split(' ').collect();
         match t[0] {
             "fs" => run_history(t[1], model_out),
+            "fsrel" => run_relative_script(&dec_str(t[1]).unwrap_or_default()),
             _ => run_path_fn(t[1], t[2]),
         }
     }
